@@ -107,6 +107,9 @@ type c13Scenario struct {
 	args     []string // the operation under test
 	needHead bool     // heads/* written by this op must have their table
 	close    func()   // scenario resources that live as long as the case (the reference server of fetch/pull)
+	// afterFault is another command the user runs on the interrupted repository before repeating the operation (e.g.
+	// prune); the repository must satisfy the invariants after it as well
+	afterFault []string
 }
 
 // c13Remote builds the remote side of the fetch/pull scenarios: a seeded history in memory stores behind the reference
@@ -237,6 +240,22 @@ func c13Template(env *fw.Env, dir string, p *c13Params) (*c13Scenario, error) {
 			return nil, err
 		}
 		sc.args = []string{"commit", "main", "d1.csv", "same data as other", "-p", "id", "--no-progress", "-n", w}
+	case "commit-then-prune":
+		// the repository has garbage to prune; the commit is interrupted, prune runs on what it left, then the commit is repeated
+		for v := 3; v <= 6; v++ { // several surviving tables, so that their blocks are spread over the key space
+			writeCSV(filepath.Join(dir, fmt.Sprintf("d%d.csv", v)), p.Rows+v, v)
+			if err := commit("main", fmt.Sprintf("d%d.csv", v), fmt.Sprintf("surviving %d", v)); err != nil {
+				return nil, err
+			}
+		}
+		if err := commit("tmp", "d2.csv", "orphan"); err != nil {
+			return nil, err
+		}
+		if _, err := run("branch", "delete", "tmp"); err != nil {
+			return nil, err
+		}
+		sc.args = []string{"commit", "main", "d1.csv", "second", "-p", "id", "--no-progress", "-n", w}
+		sc.afterFault = []string{"prune", "--no-progress"}
 	case "commit-revert":
 		if err := commit("main", "d0.csv", "first"); err != nil {
 			return nil, err
@@ -396,6 +415,20 @@ func c13CLI(c *fw.Case, env *fw.Env, o *fw.Obs, p *c13Params) *fw.Obs {
 		}
 		post[fmt.Sprintf("%d commits %d tables %d refs", facts.Commits, facts.Tables, len(facts.Refs))] = true
 		h.Close()
+		if sc.afterFault != nil {
+			ra := runWrglProc(env, dir, nil, sc.afterFault...)
+			if ra.exit != 0 {
+				o.Violate("command-after-fault-fails/wrgl-"+class, "%s: then `wrgl %s`: exit %d: %s", how, strings.Join(sc.afterFault, " "), ra.exit, tailStr(ra.out, 800))
+			}
+			if db, h, err := openRepoStores(dir); err == nil {
+				_, issues := mon.CheckRepo(db, h.RS, sc.needHead)
+				for _, is := range issues {
+					o.Violate("repo-invariant/"+is.Clause+"/wrgl-"+class+"/after-"+sc.afterFault[0], "%s, then `wrgl %s`: %s", how, strings.Join(sc.afterFault, " "), is.Detail)
+				}
+				h.Close()
+			}
+			o.Ev("commands_run_on_the_interrupted_repository", 1)
+		}
 		// the same operation again must succeed and reach the uninterrupted outcome
 		r2 := runWrglProc(env, dir, nil, sc.args...)
 		if r2.exit != 0 {
@@ -769,13 +802,13 @@ func init() {
 		Workers:     8,
 		Gen: func(tier string, seed int64) []fw.Case {
 			l := fw.NewCaseList("C13", tier, seed)
-			ops := []string{"commit-new", "commit-existing", "commit-shared", "commit-revert", "merge-ff", "merge-noff", "merge-real", "prune", "tx-commit", "fetch", "pull"}
+			ops := []string{"commit-new", "commit-existing", "commit-shared", "commit-revert", "commit-then-prune", "merge-ff", "merge-noff", "merge-real", "prune", "tx-commit", "fetch", "pull"}
 			for _, op := range ops {
 				for _, fault := range []string{"crash", "fail"} {
 					sizes := []int{5}
 					if tier == "thorough" {
 						sizes = []int{5, 300, 600, 1200}
-					} else if op == "commit-new" || op == "merge-real" {
+					} else if op == "commit-new" || op == "merge-real" || op == "commit-then-prune" {
 						sizes = []int{5, 600}
 					}
 					for _, rows := range sizes {
